@@ -347,6 +347,16 @@ class Unit:
         text, n = X.r13_bool_bitor(text); self._log("R13-bool-bitor", fnkey, n)
         text, n = X.r14_continue_to_else(text); self._log("R14-continue-to-else", fnkey, n)
         text, n = X.r14_tail_continue(text); self._log("R14-tail-continue", fnkey, n)
+        # optional `[[unsupported]] re = '..' why = '..' only = [..]`: constructs the unit declares to be OUTSIDE its verified subset although
+        # Verus accepts them (e.g. an un-annotated exec closure handed to an iterator adaptor: Verus knows nothing about its result, so a
+        # failed obligation behind it would not be evidence against the code). Their presence in the rewritten text is exit 2 (undecided),
+        # like a construct Verus itself rejects. Nothing is rewritten.
+        for us in self.cfg.get("unsupported", []):
+            only = us.get("only")
+            if (only and fnkey not in only) or fnkey in us.get("except", []):
+                continue
+            if re.search(us["re"], text, flags=re.S):
+                raise X.Undecided(f"unsupported construct in {fnkey}: {us.get('why', us['re'])}")
         return text
 
     # -- generation -----------------------------------------------------------
